@@ -346,6 +346,7 @@ func discharge(m *Machine, h HarnessSpec, rep *HarnessReport, overlay map[string
 				if z.dead {
 					z = startSolver(solverBin(), to)
 				}
+				refined := false
 				if v == "sat" && m.intMode && !o.vacuity && len(m.prods) > 0 {
 					// refine the product abstraction: the same query with M_x_y = x*y (non-linear integer arithmetic)
 					var extra strings.Builder
@@ -379,6 +380,9 @@ func discharge(m *Machine, h HarnessSpec, rep *HarnessReport, overlay map[string
 						if z.dead {
 							z = startSolver(solverBin(), to)
 						}
+						if v2 == "sat" || v2 == "unsat" {
+							refined = true // decided by the non-linear refinement: the abstract script must not be cross-checked against it
+						}
 						switch v2 {
 						case "sat":
 							mod = mod2
@@ -393,7 +397,7 @@ func discharge(m *Machine, h HarnessSpec, rep *HarnessReport, overlay map[string
 					}
 				}
 				r := res{verdict: v, model: mod, bytes: len(sc)}
-				if z2 != nil && (v == "sat" || v == "unsat") {
+				if z2 != nil && (v == "sat" || v == "unsat") && !refined {
 					v2, _ := z2.query(sc, nil)
 					if z2.dead {
 						z2 = startSolver(*solver2, to)
